@@ -32,7 +32,7 @@ package searcher
 //@ spec cqSorted(cq *CoalesceQueue) bool = forall(j, 0, len(cq.order), forall(k, 0, len(cq.order), implies(j < k, dmKey(cq.order[j]) >= dmKey(cq.order[k]))))
 
 //@ func CoalesceQueue.Dequeue
-//@   props C20 C08
+//@   props C20
 //@   mode int
 //@   requires cqShape(ctx, cq)
 //@   modifies cq.order, fields(search.DocumentMatch), search.DocumentMatchPool.avail, mem(*search.DocumentMatch), fields(search.Explanation), mem(*search.Explanation), mem(search.FieldTermLocation)
@@ -49,7 +49,7 @@ package searcher
 
 // first positioning of the children (Next on each child, ancestor chains from the index reader)
 //@ func NestedConjunctionSearcher.initialize
-//@   props C20 C08
+//@   props C20
 //@   mode int
 //@   trusted the first positioning of the children over the index reader's ancestor chains is not under contract; assumed of it: it leaves the buffer alone and keeps the pool's slot array or replaces it by a new one
 //@   requires s != nil && ctx != nil && ctx.DocumentMatchPool != nil
@@ -60,7 +60,7 @@ package searcher
 // match returned from the buffer is at or after the target and (the buffer being sorted) every
 // match still buffered lies after it.
 //@ func NestedConjunctionSearcher.Advance
-//@   props C20 C08
+//@   props C20
 //@   mode int
 //@   requires s != nil && s.nestedReader != nil && cqShape(ctx, s.docQueue) && cqSorted(s.docQueue) && implies(!s.initialized, len(s.docQueue.order) == 0)
 //@   modifies fields(NestedConjunctionSearcher), fields(CoalesceQueue), fields(search.DocumentMatch), search.DocumentMatchPool.avail, mem(*search.DocumentMatch), fields(search.Explanation), mem(*search.Explanation), mem(search.FieldTermLocation), mem(index.AncestorID), s.currs[*], s.currAncestors[*], s.currKeys[*], search.Searcher.started, search.Searcher.last, search.Searcher.done
